@@ -132,3 +132,70 @@ def has_cond(conds, regex, value):
         if isinstance(e, str) and rx.search(e) and v == value:
             return True
     return False
+
+
+def _switch_edges(fn, sb):
+    """[(value, target)] of a switch block with boolean normalisation ((expr, value) semantics as in
+    dominating_conditions)"""
+    t = fn.blocks[sb]["t"]
+    e, neg = _norm(fn, t["discr"])
+    isbool = t["dty"] == "bool"
+    out = []
+    listed = [v for v, _ in t["targets"]]
+    for v, tb in t["targets"]:
+        val = 1 - v if (isbool and neg) else v
+        out.append((val, tb))
+    if isbool and len(listed) == 1:
+        ov = 1 - listed[0]
+        if neg:
+            ov = 1 - ov
+        out.append((ov, t["otherwise"]))
+    else:
+        out.append((("not", tuple(listed)), t["otherwise"]))
+    return e, out
+
+
+def guarded_by_disjunction(fn, bb, rx_a, val_a, rx_b, val_b):
+    """True iff every path to `bb` has decided (A == val_a) or (B == val_b), where A / B are the switch
+    discriminants whose canonical expressions match rx_a / rx_b (short-circuit `a || b` lowering:
+    the B test sits on the A-fails edge)."""
+    import re
+    ra, rb = re.compile(rx_a), re.compile(rx_b)
+    doms = fn.dominators().get(bb, set())
+    cands = []
+    for sb in sorted(doms):
+        t = fn.blocks[sb]["t"]
+        if t["k"] != "switch" or sb == bb:
+            continue
+        e, edges = _switch_edges(fn, sb)
+        if ra.search(e):
+            cands.append((sb, edges, val_a, rb, val_b))
+        elif rb.search(e):
+            cands.append((sb, edges, val_b, ra, val_a))
+    for sa, edges, va, r_other, v_other in cands:
+        fail_targets = [tb for v, tb in edges if v != va]
+        ok = True
+        for ta in fail_targets:
+            reach = _reach_without(fn, ta, sa)
+            if bb not in reach:
+                continue
+            # the other test must separate ta from bb
+            sep = False
+            for sb2 in sorted(reach):
+                t2 = fn.blocks[sb2]["t"]
+                if t2["k"] != "switch":
+                    continue
+                e2, edges2 = _switch_edges(fn, sb2)
+                if not r_other.search(e2):
+                    continue
+                # bb unreachable from ta once sb2 is removed, and unreachable from sb2's failing edges
+                if bb in _reach_without(fn, ta, sb2) and sb2 != ta:
+                    continue
+                bad = [tb for v, tb in edges2 if v != v_other and bb in _reach_without(fn, tb, sa)]
+                if not bad:
+                    sep = True
+            if not sep:
+                ok = False
+        if ok:
+            return True
+    return False
